@@ -141,6 +141,14 @@ def run(tier, seed, replay=None):
     ]
     chk.prove('C15_Props', extra_targets=['theories/Gen/Gen_Locks.vo'])
     translator_ok = os.path.exists(LOCKS_JSON)
+    if tier == 'thorough' and not replay:
+        # independent re-check of the compiled proofs (and their whole dependency cone) by coqchk
+        rc, out, dt = sh('coqchk -silent -o -Q theories NV NV.C15_Props', cwd=COQ, timeout=1200)
+        axioms_none = re.search(r'\* Axioms: <none>', out) is not None
+        chk.obligations.append(('coqchk:C15_Props', rc == 0 and axioms_none))
+        chk.cov['coqchk'] = 'ok, axioms: <none>' if rc == 0 and axioms_none else out[-600:]
+        if rc != 0 or not axioms_none:
+            chk.broken.append(('proof', 'coqchk', out[-1500:]))
 
     # ---------------- obligations on the generated skeletons, evaluated by the kernel
     static = {}     # signature -> description
@@ -202,7 +210,7 @@ def run(tier, seed, replay=None):
         runs = [dict(seed=seed, n=4, iters=2, procs=0)]
     else:
         runs = [dict(seed=seed * 101 + k, n=n, iters=it, procs=pr) for k, (n, it, pr) in
-                enumerate([(8, 12, 0), (16, 6, 0), (4, 20, 2), (8, 10, 4), (12, 8, 0)])]
+                enumerate([(8, 60, 0), (16, 30, 0), (4, 100, 2), (8, 50, 4), (12, 40, 0), (32, 12, 0), (2, 150, 1), (6, 60, 3)])]
     dyn = {}       # signature -> (what, replay)
     calls = collections.Counter()
     kinds = set()
@@ -214,7 +222,7 @@ def run(tier, seed, replay=None):
         os.makedirs(rdir, exist_ok=True)
         machines.dump(machines.zoo()[1], os.path.join(rdir, 'machine.json'))
         env = {'VERIF_OUT': rdir, 'VERIF_SEED': str(r['seed']), 'VERIF_C15_N': str(r['n']), 'VERIF_C15_ITERS': str(r['iters']),
-               'VERIF_C15_BUDGET_S': '25' if tier == 'quick' else '120', 'GORACE': 'log_path=%s/race halt_on_error=0' % rdir}
+               'VERIF_C15_BUDGET_S': '25' if tier == 'quick' else '300', 'GORACE': 'log_path=%s/race halt_on_error=0' % rdir}
         if r['procs']:
             env['GOMAXPROCS'] = str(r['procs'])
         rc, out, dt = go_test('./pkg/resmgr/', ov, '^TestVerifC15$', env=env, timeout=900 if tier != 'quick' else 420, race=True)
